@@ -779,6 +779,16 @@ func c09(w *core.World, r *core.Report) {
 			}
 			n++
 			ok := false
+			// a marker that is the constant false (a branch that is not in the tree contributes nothing new) is fine
+			allFalse := true
+			for _, m := range marker {
+				if b, isC := core.ConstBool(m); !isC || b {
+					allFalse = false
+				}
+			}
+			if allFalse {
+				ok = true
+			}
 			sl := core.DataSlice(pop, marker)
 			for v := range sl.Values {
 				c, isCall := v.(*ssa.Call)
@@ -890,7 +900,9 @@ func c09(w *core.World, r *core.Report) {
 		}
 		for _, c := range core.Calls(f) {
 			if core.CalleeIs(c, drvMutating...) {
-				r.Check(guardedByNonEmptyDoc(c), "EMPTY-SHORTCUT", core.Site(f, "%s only for non-empty document", core.CalleeKey(c)), w.InstrPos(c), "an empty change must not reach the device")
+				okNonEmpty := false
+				core.WithHost(f, func() { okNonEmpty = guardedByNonEmptyDoc(c) })
+				r.Check(okNonEmpty, "EMPTY-SHORTCUT", core.Site(f, "%s only for non-empty document", core.CalleeKey(c)), w.InstrPos(c), "an empty change must not reach the device")
 			}
 		}
 	}
